@@ -42,7 +42,7 @@ def build(profile='release', features=()):
 
 def show_term(t):
     from .oracle import SIG
-    return '(' + t[0] + ''.join(' ' + (str(a) if k in 'sb' else show_term(a)) for k, a in zip(SIG[t[0]], t[1:])) + ')'
+    return '(' + t[0] + ''.join(' ' + (str(a) if k in 'sb' else ('#%d' % a if k == 'p' else show_term(a))) for k, a in zip(SIG[t[0]], t[1:])) + ')'
 
 def show_pat(t):
     from .oracle import SIG
